@@ -378,12 +378,28 @@ class SInt:
         return SInt.wrap(self._divmod(c, self.t)[1])
 
     def __pow__(self, o, mod=None):
-        if mod is not None or not isinstance(o, int) or isinstance(o, bool) or o < 0 or o > 4:
-            raise Unsupported("SInt ** non-small-constant")
+        if mod is not None:
+            raise Unsupported("3-argument pow on SInt")
+        if isinstance(o, SInt):
+            o = ctx().concretize_int(o.t)      # needs a small finite range
+        if isinstance(o, (SReal, float, Fraction)):
+            raise Unsupported("SInt ** real")
+        if not isinstance(o, int) or isinstance(o, bool):
+            return NotImplemented
+        if abs(o) > 8:
+            raise Unsupported("SInt ** large constant")
         r = 1
-        for _ in range(o):
+        for _ in range(abs(o)):
             r = _t_mul(r, self.t)
-        return SInt.wrap(r)
+        if o >= 0:
+            return SInt.wrap(r)
+        return SReal.of(1) / SInt.wrap(r)     # forks on zero -> ZeroDivisionError like Python
+
+    def __rpow__(self, o, mod=None):
+        if mod is not None or isinstance(o, bool) or not isinstance(o, (int, float)):
+            return NotImplemented
+        e = ctx().concretize_int(self.t)
+        return o ** e
 
     # -- comparisons
     def _cmp(self, o, op, swap=False):
